@@ -9,6 +9,7 @@ import Mathlib.Analysis.Calculus.Deriv.Pow
 import Mathlib.Analysis.Calculus.Deriv.Mul
 import Mathlib.Tactic.FieldSimp
 import Mathlib.Tactic.LinearCombination
+import Mathlib.Analysis.SpecialFunctions.Log.Deriv
 
 namespace EasyFEAVerif.HyperLaws
 
@@ -118,5 +119,76 @@ theorem dI3OK_sound {W D : PExpr × Nat} (h : dI3OK W D = true) (x : Nat → ℝ
       linear_combination he
   rw [key]
   exact hd
+
+/-! ### laws with a logarithmic term -/
+
+/-- energy `P/w^m + L·log w` -/
+noncomputable def evalLlog (x : Nat → ℝ) (W : PExpr × Nat) (L : PExpr) : ℝ := evalL x W + eval x L * Real.log (x 2)
+
+theorem logCoef_indep {L : PExpr} (h : logCoefOK L = true) (x : Nat → ℝ) {i : Nat} (hi : i ≤ 2) (t : ℝ) :
+    eval (Function.update x i t) L = eval x L := by
+  have he := PExpr.eqv_sound (K := ℝ) h
+  have key : ∀ y : Nat → ℝ, eval y L = eval (fun v => if v ≤ 2 then (1 : ℝ) else y v) L := by
+    intro y
+    rw [← he y, KelvinRot.eval_subst]
+    congr 1
+    funext v
+    by_cases hv : v ≤ 2 <;> simp [σfree, hv, eval]
+  rw [key (Function.update x i t), key x]
+  congr 1
+  funext v
+  by_cases hv : v ≤ 2
+  · simp [hv]
+  · have : v ≠ i := by omega
+    simp [hv, Function.update_of_ne this]
+
+theorem dInvLog_sound {i : Nat} (hi : i < 2) {W D : PExpr × Nat} {L : PExpr} (h : dInvOK i W D = true) (hL : logCoefOK L = true)
+    (x : Nat → ℝ) (hw : x 2 ≠ 0) :
+    HasDerivAt (fun t : ℝ => evalLlog (Function.update x i t) W L) (evalL x D) (x i) := by
+  have hi2 : i ≠ 2 := by omega
+  have h1 := dInvOK_sound hi2 h x hw
+  have hfun : (fun t : ℝ => evalLlog (Function.update x i t) W L)
+      = fun t => evalL (Function.update x i t) W + eval x L * Real.log (x 2) := by
+    funext t
+    simp [evalLlog, logCoef_indep hL x (by omega : i ≤ 2) t, Function.update_of_ne (Ne.symm hi2)]
+  rw [hfun]
+  simpa using h1.add_const (eval x L * Real.log (x 2))
+
+theorem dI3Log_sound {W D : PExpr × Nat} {L : PExpr} (h : dI3LogOK W L D = true) (hL : logCoefOK L = true) (x : Nat → ℝ) (hw : x 2 ≠ 0) :
+    HasDerivAt (fun w : ℝ => evalLlog (Function.update x 2 w) W L) (6 * (x 2) ^ 5 * evalL x D) (x 2) := by
+  have he := PExpr.eqv_sound (K := ℝ) h x
+  simp only [eval, eval_wpow] at he
+  have hfun : (fun w : ℝ => evalLlog (Function.update x 2 w) W L)
+      = fun w => eval (Function.update x 2 w) W.1 / w ^ W.2 + eval x L * Real.log w := by
+    funext w; simp [evalLlog, evalL, logCoef_indep hL x (le_refl 2) w]
+  rw [hfun]
+  have hP := PExpr.pd_sound 2 W.1 x
+  have hpow : HasDerivAt (fun w : ℝ => w ^ W.2) ((W.2 : ℝ) * (x 2) ^ (W.2 - 1)) (x 2) := hasDerivAt_pow W.2 (x 2)
+  have hd := hP.fun_div hpow (pow_ne_zero _ hw)
+  rw [Function.update_eq_self] at hd
+  have hlog := (Real.hasDerivAt_log hw).const_mul (eval x L)
+  have hsum := hd.add hlog
+  have h1 : (x 2) ^ W.2 ≠ 0 := pow_ne_zero _ hw
+  have h2 : (x 2) ^ D.2 ≠ 0 := pow_ne_zero _ hw
+  have hcast : ((W.2 : ℚ) : ℝ) = (W.2 : ℝ) := by push_cast; rfl
+  rw [hcast] at he
+  have key : 6 * (x 2) ^ 5 * evalL x D
+      = (eval x (PExpr.pd 2 W.1) * (x 2) ^ W.2 - eval x W.1 * ((W.2 : ℝ) * (x 2) ^ (W.2 - 1))) / ((x 2) ^ W.2) ^ 2
+        + eval x L * (x 2)⁻¹ := by
+    unfold evalL
+    rcases Nat.eq_zero_or_pos W.2 with hm | hm
+    · rw [hm] at he ⊢
+      simp only [pow_zero, Nat.cast_zero, zero_mul, mul_zero, sub_zero, zero_add, mul_one, one_pow, div_one] at he ⊢
+      field_simp
+      linear_combination he
+    · have hsplit : (x 2) ^ W.2 = (x 2) ^ (W.2 - 1) * x 2 := by
+        rw [← pow_succ]; congr 1; omega
+      have h3 : (x 2) ^ (W.2 - 1) ≠ 0 := pow_ne_zero _ hw
+      rw [pow_add] at he
+      rw [hsplit] at he ⊢
+      field_simp
+      linear_combination he
+  rw [key]
+  exact hsum
 
 end EasyFEAVerif.HyperLaws
